@@ -221,7 +221,13 @@ func runC02(r *ev.Run) {
 	r.Set("uci_chains", uciChains.Load())
 
 	// --- U3: en-passant family: the only move played is the double push ----
-	epFam := c02EPFamily(r, judge)
+	epFiles := ev.Pick(r, []int{int(r.Seed % 8), int((r.Seed + 3) % 8), int((r.Seed + 7) % 8)}, []int{0, 1, 2, 3, 4, 5, 6, 7})
+	epExtras := ev.Pick(r, []int8{0, 3, 4, 5, -3, -4, -5}, []int8{0, 1, 2, 3, 4, 5, -1, -2, -3, -4, -5})
+	epFam := epFamily(r, epFiles, epExtras, func(ld *eng.Loader, pos *refchess.Pos, mm refchess.Move, child *refchess.Pos) {
+		b := ld.Load(pos)
+		b.MakeMove(move.Move(mm.Enc()))
+		judge(b, child, func() c02Case { return c02Case{FEN: pos.FEN(), Moves: []string{mm.String()}, Via: "api"} })
+	})
 	r.Set("ep_family_positions", epFam)
 
 	// --- counter edges: long reversible lines (clock beyond 100, full-move numbers)
@@ -243,13 +249,11 @@ func runC02(r *ev.Run) {
 	r.Assume("reference model refchess validated against published perft counts")
 }
 
-// c02EPFamily enumerates: white pawn on its home square of file f, black
+// epFamily enumerates: white pawn on its home square of file f, black
 // capturer(s) on rank 4 beside the target, both kings anywhere, one extra
 // man of any kind and colour anywhere (or none); White plays the double
 // push. Every such valid position is also mirrored (Black pushes).
-func c02EPFamily(r *ev.Run, judge func(b *board.Board, child *refchess.Pos, mk func() c02Case)) int64 {
-	files := ev.Pick(r, []int{int(r.Seed % 8), int((r.Seed + 3) % 8), int((r.Seed + 7) % 8)}, []int{0, 1, 2, 3, 4, 5, 6, 7})
-	extras := ev.Pick(r, []int8{0, 3, 4, 5, -3, -4, -5}, []int8{0, 1, 2, 3, 4, 5, -1, -2, -3, -4, -5})
+func epFamily(r *ev.Run, files []int, extras []int8, visit func(ld *eng.Loader, pos *refchess.Pos, mm refchess.Move, child *refchess.Pos)) int64 {
 	type job struct {
 		f    int
 		caps int // bit0: capturer on f-1, bit1: capturer on f+1
@@ -304,9 +308,7 @@ func c02EPFamily(r *ev.Run, judge func(b *board.Board, child *refchess.Pos, mk f
 					continue // the push is illegal (own king exposed)
 				}
 				count.Add(1)
-				b := ld.Load(&pos)
-				b.MakeMove(move.Move(mm.Enc()))
-				judge(b, &child, func() c02Case { return c02Case{FEN: pos.FEN(), Moves: []string{mm.String()}, Via: "api"} })
+				visit(&ld, &pos, mm, &child)
 			}
 		}
 		for bk := 0; bk < 64; bk++ {
